@@ -4,12 +4,14 @@ import json
 from .. import core, xbtc
 
 DRIVER = "xbt_containers_driver"
+FUZZ = "xbt_containers_fuzz"
 
 
 class C50(core.Prop):
     id = "C50"
-    drivers = [DRIVER]
-    sizes = {"quick": 6000, "thorough": 150000}
+    drivers = [DRIVER, FUZZ]
+    ready = True
+    sizes = {"quick": 3000, "thorough": 150000}
     max_workers = 14
     technique = ("stateful property-based testing (Hypothesis): operation histories executed on the real xbt_dynar / xbt_dict, every "
                  "return value and the full content after every operation compared with a Python list / dict model")
@@ -38,8 +40,13 @@ class C50(core.Prop):
         return xbtc.cases(200)
 
     def fixed_cases(self, tier):
-        # the smallest form of a few structural corners (always run, independent of the seed)
-        return [
+        # coverage-guided fuzzing of the same API with ASan/UBSan (std::vector / std::map as models inside the target)
+        if tier == "quick":
+            fuzz = [{"kind": "fuzz", "seed": 1, "runs": 10000, "max_len": 400}]
+        else:
+            fuzz = [{"kind": "fuzz", "seed": s, "runs": 400000, "max_len": 1200} for s in range(1, 9)]
+        # + the smallest form of a few structural corners (always run, independent of the seed)
+        return fuzz + [
             {"kind": "dynar", "mode": "scalar", "elmsize": 4, "end": "free",
              "ops": [["push", 1], ["push", 2], ["push", 3], ["remove_at", 3], ["unshift", 0], ["insert_at", 3, 9], ["sort"], ["pop"]]},
             {"kind": "dynar", "mode": "ptr", "free_f": True, "end": "free",
@@ -50,7 +57,55 @@ class C50(core.Prop):
         ]
 
     # -----------------------------------------------------------------------------------------
+    def check_fuzz(self, case):
+        """one libFuzzer campaign (kind=fuzz: seed/runs/max_len) or the replay of one input (kind=fuzz-input: hex)"""
+        import os
+        import re
+        import shutil
+        from .. import build
+        oc = core.Outcome()
+        d = core.tmpdir()
+        try:
+            if case["kind"] == "fuzz-input":
+                path = os.path.join(d, "input")
+                with open(path, "wb") as f:
+                    f.write(bytes.fromhex(case["hex"]))
+                cmd = [build.drv(FUZZ), path]
+                oc.labels.append("fuzz-input-replay")
+            else:
+                cmd = [build.drv(FUZZ), "-runs=%d" % case["runs"], "-seed=%d" % case["seed"], "-max_len=%d" % case["max_len"],
+                       "-artifact_prefix=%s/" % d, "-print_final_stats=1"]
+                oc.labels.append("fuzz-campaign")
+            r = core.run(cmd, cpu=3600, wall=7200, env=build.runtime_env(), cwd=d, mem_gb=0)
+            if r.wall_exceeded:
+                raise core.Inconclusive()
+            m = re.search(r"stat::number_of_executed_units:\s*(\d+)", r.err)
+            oc.evals = int(m.group(1)) if m else 1
+            cov = re.findall(r"cov: (\d+)", r.err)
+            oc.info = {"executions": oc.evals, "edges_covered": int(cov[-1]) if cov else None}
+            oc.nontrivial = case["kind"] == "fuzz" and oc.evals >= 1000
+            if r.rc != 0:
+                arts = [f for f in os.listdir(d) if f.startswith(("crash-", "leak-", "timeout-", "oom-"))]
+                hexin = open(os.path.join(d, arts[0]), "rb").read().hex() if arts else case.get("hex")
+                mm = re.search(r"MODEL-MISMATCH [^:]*:\d+: (.*)", r.err)
+                if mm:
+                    sig = "fuzz:model-mismatch"
+                    what = mm.group(1)
+                else:
+                    a = re.search(r"ERROR: (AddressSanitizer|LeakSanitizer): ([a-zA-Z-]+)", r.err)
+                    u = re.search(r"runtime error: (.*)", r.err)
+                    sig = "fuzz:%s:%s" % (a.group(1), a.group(2)) if a else "fuzz:ubsan" if u else "fuzz:crash"
+                    what = (a.group(0) if a else u.group(0) if u else "exit status %s" % r.rc)
+                at = max(r.err.find("ERROR: "), r.err.find("runtime error: "), r.err.find("MODEL-MISMATCH"), 0)
+                oc.bad(sig, "%s; replay with the case {\"kind\":\"fuzz-input\",\"hex\":\"%s\"}; report: %s"
+                       % (what, hexin, r.err[at:at + 1800]))
+        finally:
+            shutil.rmtree(d, ignore_errors=True)
+        return oc
+
     def check(self, case):
+        if case["kind"] in ("fuzz", "fuzz-input"):
+            return self.check_fuzz(case)
         oc = core.Outcome()
         kind = case["kind"]
         abort = None
@@ -180,8 +235,11 @@ class C50(core.Prop):
             if end.get("end") is not True:
                 oc.bad("%s:free:pointer-not-reset" % kind, "the destructor did not set the handle to NULL")
             if sorted(end.get("f", [])) != sorted(final):
-                oc.bad("%s:free:wrong-frees" % kind, "the destructor (%s) handed %s to the free function, the model says %s; %s"
-                       % (conc.get("end", "xbt_dict_free"), end.get("f"), final, ctx(nsteps - 1)))
+                got_f = end.get("f", [])
+                oc.bad("%s:free:wrong-frees" % kind, "the destructor (%s) handed %d objects to the free function, the model says %d: "
+                       "never freed %s, freed but not expected (negative < -999: second free of the same object) %s; %s"
+                       % (conc.get("end", "xbt_dict_free"), len(got_f), len(final), sorted(set(final) - set(got_f))[:20],
+                          sorted(set(got_f) - set(final))[:20], ctx(nsteps - 1)))
 
         if rs >= 1:
             labels.add("%s:resized>=1" % kind)
